@@ -55,6 +55,16 @@ type Opts struct {
 	//                      library's MaxElapsedTime of 15 min on the FIRST failure (31 min, 1 h, 24 h: next >= retention / 2):
 	//                      the batch is given up by backoff.Stop with attempts remaining (or with unlimited attempts)
 	DqDelay [2]int // blocking dead-queue output: each of its sends takes that many ms (every second case: 0)
+
+	// coverage-driven knobs (notes/coverage): options of RunCase's xopts; every draw they add happens only when they are set
+	// InVar: what Pipeline.In does before the stream: decoder raw / cri / auto (+ the input's suggestion), MaxEventSize with and
+	// without cut-off, antispam threshold, meta data (also on array roots), source-name meta field, saved stream offsets
+	InVar      bool
+	MatchVar   bool   // match modes (or / prefix modes with value lists / do_if / MatchInvert) and metric options of the actions
+	FileCommit bool   // InputPlugin.Commit goes to the real file-input jobProvider.commit
+	EarlyStop  [2]int // Pipeline.Stop lo..hi ms after the feeders finished, with events in flight (no quiescence awaited)
+	StopMid    bool   // ... or (every second case) asked for by a feeder in the middle of its script: In keeps being called
+	BatchBytes [2]int // BatchSizeBytes of the batchers (the count limit stays: whichever is reached first seals the batch)
 }
 
 type Rng interface {
@@ -81,6 +91,41 @@ func GenCase(r Rng, o Opts) hx.Sx {
 	if o.TwoHolders && nAct >= 2 {
 		holdCol = r.Intn(nAct - 1)
 		holdCol2 = r.Range(holdCol+1, nAct-1)
+	}
+	// In() variety: one decoder / admission setting per case
+	var xv struct{ dec, maxSize, cutoff, antispam, meta, match, metrics, streamOff int }
+	if o.InVar {
+		xv.dec = []int{0, 1, 1, 2, 2, 2, 3, 4, 5}[r.Intn(9)]
+		if r.Chance(1, 2) {
+			xv.maxSize = r.Range(30, 90)
+			xv.cutoff = r.Intn(3)
+		}
+		if r.Chance(1, 3) {
+			xv.antispam = r.Range(2, 12)
+		}
+		if r.Chance(1, 2) {
+			xv.meta = r.Range(1, 2)
+			if r.Chance(1, 8) {
+				xv.meta = 3
+			}
+			if xv.meta >= 2 && xv.antispam == 0 {
+				xv.antispam = r.Range(4, 40) // the source-name meta field is read on the antispam path only
+			}
+		}
+		if (xv.dec == 2 || xv.dec == 4) && r.Bool() {
+			// saved stream offsets as after a restart: stdout rows below it are "already processed" (antispam path)
+			xv.streamOff = r.Range(20, 200)
+			if xv.antispam == 0 {
+				xv.antispam = r.Range(4, 40)
+			}
+		}
+	}
+	if o.MatchVar {
+		xv.match = r.Intn(5)
+		if r.Chance(1, 3) {
+			xv.match += 8
+		}
+		xv.metrics = r.Intn(3)
 	}
 	outKind := pick(r, o.OutKinds)
 	rng := func(x [2]int, lo, hi int) int {
@@ -115,15 +160,18 @@ func GenCase(r Rng, o Opts) hx.Sx {
 	if o.Pool > 0 {
 		poolKind = o.Pool - 1
 	}
-	cfg := hx.L(hx.I(procs), hx.I(poolKind), hx.I(capacity), hx.I(evTimeout), hx.I(nAct), hx.I(outKind), hx.I(workers), hx.I(count),
-		hx.I(flush), hx.I(retry), hx.I(dq), hx.I(spread))
 	nsrc := r.Range(o.Sources[0], o.Sources[1])
 	var feeders []hx.Sx
+	nEvents := 0
 	for s := 0; s < nsrc; s++ {
 		nstreams := r.Range(o.Streams[0], o.Streams[1])
 		n := r.Range(o.Events[0], o.Events[1])
 		var ops []hx.Sx
 		off, ngaps := 0, 0
+		if o.FileCommit && r.Chance(1, 4) {
+			// a first offset past 16 MiB: the file input's "maybe an offset corruption" branch (a stream without a stored offset)
+			off = 16<<20 + r.Intn(1000)
+		}
 		for i := 0; i < n; i++ {
 			off += r.Range(1, 30)
 			var sb strings.Builder
@@ -212,6 +260,10 @@ func GenCase(r Rng, o Opts) hx.Sx {
 			if r.Chance(1, 30) {
 				js = `{"broken json` // undecodable: refused, event returned to the pool
 			}
+			if o.InVar {
+				js = wrapEvent(r, xv.dec, xv.meta, js, nstreams)
+			}
+			nEvents++
 			if padLen >= 0 {
 				ops = append(ops, hx.L(hx.I(6), hx.I(s+1), hx.I(off), hx.S(js), hx.I(padLen), hx.I(nWide)))
 			} else {
@@ -246,7 +298,47 @@ func GenCase(r Rng, o Opts) hx.Sx {
 		}
 		plan = append(plan, hx.L(hx.I(d), hx.I(f)))
 	}
-	if !o.Recycle && !o.Backoff && !o.Maint && o.StopRetention == 0 && o.DqDelay[1] == 0 {
+	// options of RunCase's xopts (6th element of ext)
+	var xs []hx.Sx
+	xopt := func(k, v int) {
+		if v != 0 {
+			xs = append(xs, hx.L(hx.I(k), hx.I(v)))
+		}
+	}
+	xopt(1, xv.dec)
+	xopt(2, xv.maxSize)
+	if xv.maxSize > 0 {
+		xopt(3, xv.cutoff)
+	}
+	xopt(4, xv.antispam)
+	xopt(5, xv.meta)
+	xopt(6, xv.match)
+	xopt(7, xv.metrics)
+	xopt(11, xv.streamOff)
+	if o.FileCommit {
+		xopt(8, 1)
+	}
+	if o.EarlyStop[1] > 0 {
+		xopt(9, 1+r.Range(o.EarlyStop[0], o.EarlyStop[1]))
+		if o.StopMid && r.Bool() && len(feeders) > 0 {
+			// one feeder asks for the stop in the middle of its script and goes on feeding: In is called on a stopping /
+			// stopped pipeline.  The capacity covers every event of the case, so that no feeder parks in the pool for ever
+			f := r.Intn(len(feeders))
+			ops := hx.Items(feeders[f])
+			at := r.Intn(len(ops) + 1)
+			nops := append(append(append([]hx.Sx{}, ops[:at]...), hx.L(hx.I(7))), ops[at:]...)
+			feeders[f] = hx.L(nops...)
+			if capacity < nEvents {
+				capacity = nEvents
+			}
+		}
+	}
+	if o.BatchBytes[1] > 0 && r.Bool() {
+		xopt(10, r.Range(o.BatchBytes[0], o.BatchBytes[1]))
+	}
+	cfg := hx.L(hx.I(procs), hx.I(poolKind), hx.I(capacity), hx.I(evTimeout), hx.I(nAct), hx.I(outKind), hx.I(workers), hx.I(count),
+		hx.I(flush), hx.I(retry), hx.I(dq), hx.I(spread))
+	if !o.Recycle && !o.Backoff && !o.Maint && o.StopRetention == 0 && o.DqDelay[1] == 0 && len(xs) == 0 {
 		return hx.L(cfg, hx.L(feeders...), hx.L(plan...))
 	}
 	avg, retention, mult, maint := 0, 0, 0, 0
@@ -262,14 +354,55 @@ func GenCase(r Rng, o Opts) hx.Sx {
 	if o.StopRetention > 0 && r.Chance(o.StopRetention, 4) {
 		retention = StopRetentions[r.Intn(len(StopRetentions))]
 	}
+	dqDelay := 0
+	if o.DqDelay[1] > 0 && r.Bool() {
+		dqDelay = r.Range(o.DqDelay[0], o.DqDelay[1])
+	}
+	if len(xs) > 0 {
+		return hx.L(cfg, hx.L(feeders...), hx.L(plan...), hx.L(hx.I(avg), hx.I(retention), hx.I(mult), hx.I(maint), hx.I(dqDelay), hx.L(xs...)))
+	}
 	if o.DqDelay[1] > 0 {
-		dqDelay := 0
-		if r.Bool() {
-			dqDelay = r.Range(o.DqDelay[0], o.DqDelay[1])
-		}
 		return hx.L(cfg, hx.L(feeders...), hx.L(plan...), hx.L(hx.I(avg), hx.I(retention), hx.I(mult), hx.I(maint), hx.I(dqDelay)))
 	}
 	return hx.L(cfg, hx.L(feeders...), hx.L(plan...), hx.L(hx.I(avg), hx.I(retention), hx.I(mult), hx.I(maint)))
+}
+
+// wrapEvent turns the JSON text of an event into what the case's decoder reads.
+//
+//	json / auto: the text itself; with meta data every 8th event is an ARRAY root ([<event>,7]: In adds the meta fields to
+//	             the array's objects)
+//	raw:         the text and a line feed (the raw decoder drops the last byte)
+//	cri:         "<time> stdout|stderr F|P <text>\n" - the stream is the row's, every 8th row is partial (antispam skipped),
+//	             every 16th line is not CRI at all (refused before an event is taken from the pool), every 10th has a time
+//	             that does not parse
+//	any decoder: every 20th record is empty or a bare line feed
+func wrapEvent(r Rng, dec, meta int, js string, nstreams int) string {
+	if r.Chance(1, 20) {
+		return []string{"", "\n"}[r.Intn(2)] // no record at all: refused before anything else happens
+	}
+	switch dec {
+	case 1:
+		return js + "\n"
+	case 2, 4:
+		if r.Chance(1, 16) {
+			return "not a cri line\n"
+		}
+		stream, tag := "stdout", "F"
+		if nstreams > 1 && r.Bool() {
+			stream = "stderr"
+		}
+		if r.Chance(1, 8) {
+			tag = "P"
+		}
+		if r.Chance(1, 10) {
+			return fmt.Sprintf("yesterday %s %s %s\n", stream, tag, js) // a row whose time does not parse (antispam path)
+		}
+		return fmt.Sprintf("2016-10-06T00:17:09.%09dZ %s %s %s\n", r.Intn(1000000000), stream, tag, js)
+	}
+	if meta > 0 && r.Chance(1, 8) && strings.HasSuffix(js, "}") {
+		return "[" + js + ",7]"
+	}
+	return js
 }
 
 // StopRetentions are MinRetention values (ms) with which RetriableBatcher.Out is given up by the backoff library itself:
@@ -409,7 +542,52 @@ var (
 	// and the dead queue commits them a second time
 	FamDeadQStop = Opts{Procs: []int{1, 2, 4}, Actions: [2]int{0, 2}, Ops: "pppd", OutKinds: []int{2}, Failures: true, DeadQ: true, Sources: [2]int{1, 2},
 		Streams: [2]int{1, 2}, Events: [2]int{4, 16}, Retries: []int{-3, -1, 0, 1, 2, 3}, StopRetention: 3, DqDelay: [2]int{20, 150}}
+
+	// ---- families that reach code of the anchored files no older family executes (notes/coverage/C0x-triage.md) ----
+
+	// what Pipeline.In does before an event reaches its stream (pipeline.go In / checkInputBytes / Start / SuggestDecoder): the
+	// raw and cri decoders, "auto" with and without the input's suggestion, MaxEventSize with drop / cut-off / cut-off field,
+	// an antispam threshold, meta data (on object and on array roots), the source-name meta field - plus the match and
+	// metric options of the actions.  Every refusal happens before or right after the pool hand-out: an event refused
+	// after get() must go back (monitor 7, pool at quiescence), a refused record must never show up in a stream or be
+	// committed (monitor 15), and the frontier / order / conservation monitors run on what was accepted
+	FamInVar = Opts{Procs: []int{1, 2, 4}, Actions: [2]int{0, 3}, Ops: "pppd", HoldCol: true, OutKinds: []int{0, 1, 1}, Sources: [2]int{1, 3},
+		Streams: [2]int{1, 2}, Events: [2]int{6, 30}, Gaps: true, InVar: true, MatchVar: true}
+	// action selection (processor.go isMatch / isMatchOr / isMatchAnd / countEvent): or / prefix modes with value lists,
+	// do_if, MatchInvert, actions without a metric name, metric labels, MetricSkipStatus; under hold / split / discard chains
+	FamMatchVar = Opts{Procs: []int{1, 2, 4}, Actions: [2]int{1, 3}, Ops: "pppd", HoldCol: true, Split: true, OutKinds: []int{0, 1}, Sources: [2]int{1, 2},
+		Streams: [2]int{1, 3}, Events: [2]int{4, 25}, Gaps: true, MatchVar: true}
+	// the second consumer of the commit order (C02 anchors plugin/input/file/provider.go): every InputPlugin.Commit goes to
+	// the real jobProvider.commit, which panics "offset corruption" on any commit that does not move its stream forward
+	// (labels 118 / 119, monitor 16: the stored offsets are those of the last commit of every stream, nothing panicked)
+	FamFileCommit = Opts{Procs: []int{1, 2, 4, 8}, Actions: [2]int{0, 3}, Ops: "pppd", HoldCol: true, Split: true, OutKinds: []int{0, 1, 1, 2}, Failures: true,
+		Sources: [2]int{1, 3}, Streams: [2]int{1, 3}, Events: [2]int{4, 30}, Gaps: true, FileCommit: true}
+	// shutdown with events in flight (processor.go: unlock events in dischargeStream / processSequence / processEvent,
+	// batch.go: Add on a stopped batcher): Pipeline.Stop 0..40 ms after the last In - or asked for by a feeder in the
+	// middle of its script - while events are held, queued, inside OutFn, in a half-filled batch.  Stop must return, nothing
+	// may panic, and the trace must remain a run of every model: in particular nothing is committed that the output did
+	// not acknowledge, no commit overtakes an older event (monitors 5, 6, 14, 2, 3, 12), no event goes back to the pool
+	// twice (7).  Completeness (4) is not claimed: what is in flight at shutdown stays un-committed
+	FamEarlyStop = Opts{Procs: []int{1, 2, 4}, Actions: [2]int{0, 3}, Ops: "pppd", HoldCol: true, Split: true, OutKinds: []int{0, 1, 1, 2}, Failures: true,
+		Sources: [2]int{1, 3}, Streams: [2]int{1, 2}, Events: [2]int{4, 30}, EarlyStop: [2]int{0, 40}, StopMid: true, FileCommit: true}
+	// batches sealed by BatchSizeBytes (batch.go updateStatus: `maxSizeBytes <= eventsSize`) before the count limit
+	FamBatchBytes = Opts{Procs: []int{1, 2, 4}, Actions: [2]int{0, 2}, Ops: "ppppd", OutKinds: []int{1, 1, 2}, Failures: true, Sources: [2]int{1, 2},
+		Streams: [2]int{1, 2}, Events: [2]int{5, 30}, BatchBytes: [2]int{90, 500}}
 )
+
+// FamSpreadCreate: spread routing with many feeders that start at the same instant on a pipeline with 8..32 streams to
+// create: two Ins that miss the same stream under the read lock meet again under the write lock (streamer.getStream's
+// second look-up).  A getStream that creates the stream twice splits one stream's events over two objects: the
+// conservation / pool monitors see events that were put and never finalized
+var FamSpreadCreate = Opts{Procs: []int{4, 8, 16}, Actions: [2]int{0, 1}, Ops: "pppd", OutKinds: []int{0, 1}, Spread: true, Sources: [2]int{6, 8}, Streams: [2]int{1, 1},
+	Events: [2]int{4, 12}, FastOut: true}
+
+// CoverageFamilies: the families above under their stream names, sized for the quick tier of one property.
+func CoverageFamilies(nIn, nMatch, nFile, nStop, nBytes int) []Fam {
+	return []Fam{{Stream: "in-variety", Opts: FamInVar, N: nIn}, {Stream: "match-variety", Opts: FamMatchVar, N: nMatch},
+		{Stream: "file-commit", Opts: FamFileCommit, N: nFile}, {Stream: "early-stop", Opts: FamEarlyStop, N: nStop},
+		{Stream: "batch-bytes", Opts: FamBatchBytes, N: nBytes}}
+}
 
 // Stats counts, per case, which thresholds of /repo/pipeline the case crosses (for the evidence file's distribution).
 func Stats(count func(string), j *Job) {
